@@ -5,8 +5,8 @@ import (
 	"strings"
 )
 
-// A Case is one generated program with a descriptive, deterministic id.
-type Case struct {
+// An Item is one generated program with a descriptive, deterministic id.
+type Item struct {
 	ID     string
 	Family string
 	P      *Program
@@ -31,14 +31,16 @@ func Thorough() Bounds {
 }
 
 // All streams F1..F4 in order. yield returns false to stop.
-func All(b Bounds, yield func(Case) bool) {
+func All(b Bounds, yield func(Item) bool) {
 	cont := true
-	y := func(c Case) bool {
-		Concretise(c.P, b.Seed)
+	y := func(c Item) bool {
+		if c.Family != "F4" { // F4Range applies the seed itself
+			Concretise(c.P, b.Seed)
+		}
 		cont = yield(c)
 		return cont
 	}
-	for _, f := range []func(Bounds, func(Case) bool){F1, F2, F3, F4} {
+	for _, f := range []func(Bounds, func(Item) bool){F1, F2, F3, F4} {
 		if cont {
 			f(b, y)
 		}
@@ -188,7 +190,7 @@ func f1payload(name string) (variants []string, mk func(variant string, c f1ctx)
 }
 
 // F1 enumerates every chain of length 1..F1Depth over F1Links x payload x variant.
-func F1(b Bounds, yield func(Case) bool) {
+func F1(b Bounds, yield func(Item) bool) {
 	links := make([]string, 0, b.F1Depth)
 	var rec func(n int) bool
 	emit := func() bool {
@@ -203,7 +205,7 @@ func F1(b Bounds, yield func(Case) bool) {
 				p := &Program{Funcs: g.funcs}
 				p.Main = append(append([]*Stmt{Assign("t", Int(1))}, body...), EchoS("\n"))
 				id := "F1/" + strings.Join(links, ".") + "/" + pl + "/" + v
-				if !yield(Case{ID: id, Family: "F1", P: p}) {
+				if !yield(Item{ID: id, Family: "F1", P: p}) {
 					return false
 				}
 			}
@@ -236,11 +238,11 @@ func F1(b Bounds, yield func(Case) bool) {
 //     inside every construct
 // ================================================================================================
 
-func F2(b Bounds, yield func(Case) bool) {
+func F2(b Bounds, yield func(Item) bool) {
 	ok := true
 	y := func(id string, p *Program) {
 		if ok {
-			ok = yield(Case{ID: "F2/" + id, Family: "F2", P: p})
+			ok = yield(Item{ID: "F2/" + id, Family: "F2", P: p})
 		}
 	}
 	f2params(y)
@@ -553,11 +555,11 @@ func f3mutate(m, v string) []*Stmt {
 var F3Sources = []string{"copy", "copy-lit", "plus0", "param-var", "param-lit", "param-default", "return-lit", "return-local",
 	"return-static", "foreach-val", "foreach-key", "foreach-lit", "match-arm", "static-cell", "loop-counter"}
 
-func F3(b Bounds, yield func(Case) bool) {
+func F3(b Bounds, yield func(Item) bool) {
 	ok := true
 	y := func(id string, p *Program) {
 		if ok {
-			ok = yield(Case{ID: "F3/" + id, Family: "F3", P: p})
+			ok = yield(Item{ID: "F3/" + id, Family: "F3", P: p})
 		}
 	}
 	for _, src := range F3Sources {
@@ -782,11 +784,30 @@ func F4Alphabet(b Bounds) (names []string, mk []func() *Stmt) {
 	return
 }
 
-func F4(b Bounds, yield func(Case) bool) {
+func F4(b Bounds, yield func(Item) bool) { F4Range(b, 0, F4Count(b), yield) }
+
+// F4Count is the number of F4 programs: |alphabet|^F4Len.
+func F4Count(b Bounds) int {
+	names, _ := F4Alphabet(b)
+	n := 1
+	for i := 0; i < b.F4Len; i++ {
+		n *= len(names)
+	}
+	return n
+}
+
+// F4Range streams the F4 programs with index in [from, to) (index = the statement sequence read
+// as a base-|alphabet| number), so that shards can start anywhere without enumerating a prefix.
+func F4Range(b Bounds, from, to int, yield func(Item) bool) {
 	names, mk := F4Alphabet(b)
 	n := len(names)
 	idx := make([]int, b.F4Len)
-	for {
+	for at := from; at < to; at++ {
+		x := at
+		for k := len(idx) - 1; k >= 0; k-- {
+			idx[k] = x % n
+			x /= n
+		}
 		p := &Program{Main: []*Stmt{Assign("a", Int(0)), Assign("b", Int(1))}}
 		var parts []string
 		for pos, i := range idx {
@@ -799,20 +820,8 @@ func F4(b Bounds, yield func(Case) bool) {
 			parts = append(parts, names[i])
 		}
 		p.Main = append(p.Main, Echo(Str(" "), Var("a"), Str(","), Var("b"), Str("\n")))
-		if !yield(Case{ID: "F4/" + strings.Join(parts, ";"), Family: "F4", P: p}) {
-			return
-		}
-		// next index vector
-		k := len(idx) - 1
-		for k >= 0 {
-			idx[k]++
-			if idx[k] < n {
-				break
-			}
-			idx[k] = 0
-			k--
-		}
-		if k < 0 {
+		Concretise(p, b.Seed)
+		if !yield(Item{ID: "F4/" + strings.Join(parts, ";"), Family: "F4", P: p}) {
 			return
 		}
 	}
@@ -831,6 +840,6 @@ func renameVarIn(ss []*Stmt, from, to string) {
 // Count returns the number of cases per family inside the bounds (by enumeration).
 func Count(b Bounds) map[string]int {
 	m := map[string]int{}
-	All(b, func(c Case) bool { m[c.Family]++; return true })
+	All(b, func(c Item) bool { m[c.Family]++; return true })
 	return m
 }
